@@ -303,6 +303,20 @@ func (rw *rewriter) expr(e ast.Expr) ast.Expr {
 						return vcall("PoolPut", addr(sel.X, ptr), x.Args[0])
 					}
 				}
+				for _, mt := range []string{"Mutex", "RWMutex"} {
+					if is, ptr := namedIs(t, "sync", mt); is {
+						switch sel.Sel.Name {
+						case "Lock", "Unlock":
+							rw.counts["mutex"]++
+							rw.changed = true
+							return vcall(sel.Sel.Name, addr(sel.X, ptr))
+						case "RLock", "RUnlock":
+							rw.counts["mutex"]++
+							rw.changed = true
+							return vcall(sel.Sel.Name, addr(sel.X, ptr))
+						}
+					}
+				}
 				if is, _ := namedIs(t, "time", "Timer"); is && sel.Sel.Name == "Stop" {
 					rw.counts["timerstop"]++
 					rw.changed = true
@@ -659,7 +673,7 @@ func (rw *rewriter) leftovers(f *ast.File) string {
 					}
 					if p == "sync" {
 						switch x.Sel.Name {
-						case "WaitGroup", "Pool":
+						case "WaitGroup", "Pool", "Mutex", "RWMutex", "Locker":
 						default:
 							msg = "sync." + x.Sel.Name + " is not supported by the rewriter (" + rw.fset.Position(x.Pos()).String() + ")"
 						}
@@ -675,6 +689,11 @@ func (rw *rewriter) leftovers(f *ast.File) string {
 				}
 				if is, _ := namedIs(t, "sync", "Pool"); is && (x.Sel.Name == "Get" || x.Sel.Name == "Put") {
 					msg = "sync.Pool method left native at " + rw.fset.Position(x.Pos()).String()
+				}
+				for _, mt := range []string{"Mutex", "RWMutex"} {
+					if is, _ := namedIs(t, "sync", mt); is {
+						msg = "sync." + mt + " method " + x.Sel.Name + " left native at " + rw.fset.Position(x.Pos()).String()
+					}
 				}
 				if is, _ := namedIs(t, "time", "Timer"); is && x.Sel.Name != "C" {
 					msg = "time.Timer method " + x.Sel.Name + " is not supported by the rewriter (" + rw.fset.Position(x.Pos()).String() + ")"
